@@ -177,6 +177,9 @@ type Augment struct {
 	// Relative: the path is written without the leading "/" (not allowed for
 	// an augment at the top level of a module: it names nothing).
 	Relative bool `json:"relative,omitempty"`
+	// BadPrefix, when > 0, is the index of a path step (never the first) that
+	// is written with a prefix declared nowhere in the text.
+	BadPrefix int `json:"bad_prefix,omitempty"`
 }
 
 // Deviate is one deviate statement.
